@@ -88,13 +88,13 @@ theorem get_mem_or_zero (a : Accts) (i : Id) : (i, get a i) ∈ a ∨ get a i = 
 /-! ### one transfer -/
 
 /-- exact effect of a successful transfer on every account. -/
-theorem transferCore_get (a a' : Accts) (t : Transfer) (h : transferCore a t = .ok a') (i : Id) :
+theorem transferCore0_get (a a' : Accts) (t : Transfer) (h : transferCore0 a t = .ok a') (i : Id) :
     get a' i =
       if t.amount = 0 then get a i
       else if i = t.dst then { get a i with balance := (get a i).balance + t.amount }
       else if i = t.src then { get a i with balance := (get a i).balance - t.amount }
       else get a i := by
-  unfold transferCore at h
+  unfold transferCore0 at h
   by_cases h0 : t.amount = 0
   · simp only [h0, if_true] at h ⊢
     injection h with h; rw [← h]
@@ -118,9 +118,9 @@ theorem transferCore_get (a a' : Accts) (t : Transfer) (h : transferCore a t = .
             · subst his; simp only [if_true]; rw [get_set_eq]
             · simp only [his, if_false]; rw [get_set_ne _ _ _ _ (Ne.symm his)]
 
-theorem transferCore_ok_cond (a a' : Accts) (t : Transfer) (h : transferCore a t = .ok a') :
+theorem transferCore0_ok_cond (a a' : Accts) (t : Transfer) (h : transferCore0 a t = .ok a') :
     t.amount = 0 ∨ (t.src ≠ t.dst ∧ t.amount ≤ (get a t.src).balance ∧ (get a t.dst).balance + t.amount < u64) := by
-  unfold transferCore at h
+  unfold transferCore0 at h
   by_cases h0 : t.amount = 0
   · exact Or.inl h0
   · right
@@ -135,8 +135,8 @@ theorem transferCore_ok_cond (a a' : Accts) (t : Transfer) (h : transferCore a t
         · simp [hov] at h
         · exact ⟨hsd, by omega, by omega⟩
 
-theorem transferCore_total (a a' : Accts) (t : Transfer) (h : transferCore a t = .ok a') : total a' = total a := by
-  unfold transferCore at h
+theorem transferCore0_total (a a' : Accts) (t : Transfer) (h : transferCore0 a t = .ok a') : total a' = total a := by
+  unfold transferCore0 at h
   by_cases h0 : t.amount = 0
   · simp only [h0, if_true] at h; injection h with h; rw [← h]
   · simp only [h0, if_false] at h
@@ -161,25 +161,36 @@ theorem transferCore_total (a a' : Accts) (t : Transfer) (h : transferCore a t =
 
 
 theorem transfer_core (a a' : Accts) (t : Transfer) (h : transfer a t = .ok a') :
-    transferCore a t = .ok a' ∧ (get a t.src).balance + (get a t.dst).balance < u64 := by
+    transferCore0 a t = .ok a' ∧ (t.amount = 0 ∨ t.dstCanon = true) ∧
+    (get a t.src).balance + (if t.dstCanon then (get a t.dst).balance else 0) < u64 := by
   unfold transfer at h
-  by_cases hs : (get a t.src).balance + (get a t.dst).balance ≥ u64
+  by_cases hs : (get a t.src).balance + (if t.dstCanon then (get a t.dst).balance else 0) ≥ u64
   · simp [hs] at h
-  · simp only [hs, if_false] at h; exact ⟨h, by omega⟩
+  · simp only [hs, if_false] at h
+    unfold transferCore at h
+    by_cases hc : t.amount ≠ 0 ∧ t.dstCanon = false
+    · simp [hc] at h
+    · simp only [hc, if_false] at h
+      refine ⟨h, ?_, by omega⟩
+      by_cases h0 : t.amount = 0
+      · exact Or.inl h0
+      · right; cases hd : t.dstCanon
+        · exact absurd ⟨h0, hd⟩ hc
+        · rfl
 
 theorem transfer_get (a a' : Accts) (t : Transfer) (h : transfer a t = .ok a') (i : Id) :
     get a' i =
       if t.amount = 0 then get a i
       else if i = t.dst then { get a i with balance := (get a i).balance + t.amount }
       else if i = t.src then { get a i with balance := (get a i).balance - t.amount }
-      else get a i := transferCore_get a a' t (transfer_core a a' t h).1 i
+      else get a i := transferCore0_get a a' t (transfer_core a a' t h).1 i
 
 theorem transfer_ok_cond (a a' : Accts) (t : Transfer) (h : transfer a t = .ok a') :
     t.amount = 0 ∨ (t.src ≠ t.dst ∧ t.amount ≤ (get a t.src).balance ∧ (get a t.dst).balance + t.amount < u64) :=
-  transferCore_ok_cond a a' t (transfer_core a a' t h).1
+  transferCore0_ok_cond a a' t (transfer_core a a' t h).1
 
 theorem transfer_total (a a' : Accts) (t : Transfer) (h : transfer a t = .ok a') : total a' = total a :=
-  transferCore_total a a' t (transfer_core a a' t h).1
+  transferCore0_total a a' t (transfer_core a a' t h).1
 
 /-! ### transfer queues -/
 
@@ -287,7 +298,7 @@ theorem set_inRange (a : Accts) (h : InRange a) (i : Id) (v : Acct) (hv : v.bala
 
 theorem transfer_inRange (a a' : Accts) (t : Transfer) (hr : InRange a) (h : transfer a t = .ok a') : InRange a' := by
   have h := (transfer_core a a' t h).1
-  unfold transferCore at h
+  unfold transferCore0 at h
   by_cases h0 : t.amount = 0
   · simp only [h0, if_true] at h; injection h with h; rw [← h]; exact hr
   · simp only [h0, if_false] at h
@@ -323,7 +334,7 @@ theorem applyTransfers_inRange (q : List Transfer) : ∀ (a a' : Accts), InRange
 /-! ### settle: fee, queue, nonce -/
 
 def feeQueue (feeOn : Bool) (t : Txn) (transfers signed : List Transfer) : List Transfer :=
-  (if feeOn then transfers ++ [⟨t.sender, minerSC, t.fee⟩] else transfers) ++ signed
+  (if feeOn then transfers ++ [⟨t.sender, minerSC, t.fee, true⟩] else transfers) ++ signed
 
 theorem settle_some (feeOn : Bool) (a a' : Accts) (t : Txn) (tr sg : List Transfer)
     (h : settle feeOn a t tr sg = some a') :
@@ -332,7 +343,7 @@ theorem settle_some (feeOn : Bool) (a a' : Accts) (t : Txn) (tr sg : List Transf
   unfold settle at h
   simp only at h
   unfold feeQueue
-  cases hq : applyTransfers a ((if feeOn then tr ++ [⟨t.sender, minerSC, t.fee⟩] else tr) ++ sg) with
+  cases hq : applyTransfers a ((if feeOn then tr ++ [⟨t.sender, minerSC, t.fee, true⟩] else tr) ++ sg) with
   | error e => simp [hq] at h
   | ok a1 =>
     simp only [hq] at h
